@@ -52,6 +52,11 @@ def gen_write(rng):
         if rng.random() < 0.1:
             progs = {"gone": None}
         return {"w": "execd", "progs": [[bl(k), v] for k, v in progs.items()]}
+    if r < 0.9:
+        # a symlink inside the layer: to a sibling file, to a directory, dangling (e.g. into a layer that the
+        # restore did not bring back), to itself
+        rel = rng.choice([["lnk"], ["d", "lnk"], ["node_modules", ".bin", "tool"]])
+        return {"w": "link", "rel": [bl(x) for x in rel], "target": bl(rng.choice(["f", "d", "../gone/tool", "lnk", "/nonexistent/x"]))}
     rel = rng.choice([["f"], ["d", "f"], ["bin", "tool"], ["env", "X"], ["d", "e", "g"]])
     return {"w": "file", "rel": [bl(x) for x in rel], "data": bl(rng.choice(["", "data", "x\ny"]))}
 
@@ -209,6 +214,8 @@ class C01:
             return "(WSboms %s)" % cq_list([f"({i}%nat, {cq_bytes(d)})" for i, d in w["l"]])
         if w["w"] == "execd":
             return "(WExecd %s)" % cq_list(["(%s, %s)" % (cq_bytes(k), "None" if v is None else f"(Some ({v[0]}, {cq_bytes(v[1])}))") for k, v in w["progs"]])
+        if w["w"] == "link":
+            return f"(WLink {cq_path(w['rel'])} {cq_bytes(w['target'])})"
         return f"(WFile {cq_path(w['rel'])} {cq_bytes(w['data'])})"
 
     def cq_res(self, r):
